@@ -677,6 +677,14 @@ def r_gate(model, rep, tier, only=None):
         # the legacy converter folded into the reader: the re-filing loop (an add() inside one more loop than the record loops)
         # is what is gated
         table["images.Images.deserialize"] = [("refile", "<=1.1", "src images re-filed under binary arches")]
+    for q in sorted(set(table) - set(funcs)):
+        # a gated method pulled up into a base class / mixin: the definition the class inherits, analysed as its method
+        parts = q.split(".")
+        if len(parts) == 3 and "%s.%s" % (parts[0], parts[1]) in model.classes and parts[2] not in model.cls("%s.%s" % (parts[0], parts[1])).methods:
+            try:
+                funcs[q] = model.own_method("%s.%s" % (parts[0], parts[1]), parts[2])
+            except AnalysisError:
+                pass
     for q in sorted(set(funcs) | set(table)):
         if only is not None and q not in only:
             continue
